@@ -62,11 +62,11 @@ type c08Case struct {
 const c08Selector = "sel"
 
 var (
-	c08IDN      = "тест.example"
-	c08IDNA, _  = idna.ToASCII(c08IDN)
+	c08IDN        = "тест.example"
+	c08IDNA, _    = idna.ToASCII(c08IDN)
 	c08DomainSets = [][]string{{"example.org", c08IDN}, {c08IDN, "example.org"}, {c08IDNA, "example.org"}, {"example.org"}, {c08IDN}, {c08IDNA}}
-	c08Oversign = []string{"Subject", "To", "From", "Date", "MIME-Version", "Content-Type", "Content-Transfer-Encoding", "Reply-To", "Message-Id", "References", "Autocrypt", "Openpgp"}
-	c08Sign     = []string{"List-Id", "List-Help", "List-Unsubscribe", "List-Post", "List-Owner", "List-Archive", "Resent-To", "Resent-Sender", "Resent-Message-Id", "Resent-Date", "Resent-From", "Resent-Cc"}
+	c08Oversign   = []string{"Subject", "To", "From", "Date", "MIME-Version", "Content-Type", "Content-Transfer-Encoding", "Reply-To", "Message-Id", "References", "Autocrypt", "Openpgp"}
+	c08Sign       = []string{"List-Id", "List-Help", "List-Unsubscribe", "List-Post", "List-Owner", "List-Archive", "Resent-To", "Resent-Sender", "Resent-Message-Id", "Resent-Date", "Resent-From", "Resent-Cc"}
 	// explicit lists used by the `Extra` signers
 	c08XOversign = []string{"From", "Subject", "To", "Date", "X-Verif-Once"}
 	c08XSign     = []string{"Received", "Comments", "Keywords", "X-Verif-Many", "Resent-To"}
